@@ -67,6 +67,15 @@ def generate(tier, seed):
               "#", "#a", ",", ",@", "'", "`", "(", ")", "1.", "1..2", "-1.5", "1.5.2", "--1", "1-", "a.b", ".5", "-.5", "5.",
               "(((((((((((((((((((((", "'''''''a", "éé (é)", "(a\tb\rc)", ";c\n1", ";c", "\"\\n\\t\\\\\\\"\""]:
         texts.append(s)
+    tails = ["(progn . 1)", "(if x 1 . 2)", "(if . x)", "(cond (x . 7))", "(cond . x)", "(cond x)", "(let ((y 1)) . y)", "(let . x)", "(let* x . 1)", "(f . x)", "(f x . 1)",
+             "(when x . 1)", "(unless . x)", "(progn)", "(if)", "(cond)", "(let)", "(and . x)", "(-> . x)", "(->> 1 . x)", "(if-let . x)", "(if-let ((y 1)) . x)",
+             "(when-let (y . 1) y)", "(while-let . x)", "(quote . x)", "(quote)", "1", "x", "\"s\"", "(f)", "(lambda . x)", "(lambda (x) . x)", "(defun . x)"]
+    shells = ["(defun f () %s)", "(defun f (x) 1 %s)", "'(defun f () %s)", "(if nil (defun f () %s))", "(list '(defun f (x) %s))", "(defmacro m (x) %s)", "'(defmacro m () %s)",
+              "(defun f (x) (if x %s 2))", "(defun f (x) (progn (let ((z 1)) %s)))", "(defun f %s 1)", "(defun %s () 1)", "(defmacro m %s 1)", "(defun f (x) %s", "`(defun f () %s)",
+              "`(a ,(defun f () %s))", "(defun f (&optional x &rest y) %s)", "(progn (defmacro m (x) (list 'quote x)) (m %s))", "(defun f () (m2 %s)) (defmacro m2 (x) x)"]
+    for sh in shells:
+        for t in tails:
+            texts.append(sh % t)
     progs = example_texts()
     step = 1 if tier == "thorough" else 3
     for p in progs:
